@@ -27,8 +27,9 @@ var vfStreams [][]byte // produced streams, index = tag
 var vfOrigs [][]byte
 
 type vfStubWriter struct {
-	w   io.Writer
-	buf []byte
+	w      io.Writer
+	buf    []byte
+	closed bool
 }
 
 func (s vfStub) NewWriter(w io.Writer) io.WriteCloser { return &vfStubWriter{w: w} }
@@ -40,6 +41,10 @@ func (w *vfStubWriter) Write(p []byte) (int, error) {
 }
 
 func (w *vfStubWriter) Close() error {
+	// io.Closer: behaviour after the first Close is undefined; the real writer goes back to its
+	// pool on Close, so closing twice hands one writer to two users.
+	nd.Assert(!w.closed, "a compressor writer is closed exactly once")
+	w.closed = true
 	tag := len(vfStreams)
 	extra := nd.Concrete(nd.IntRange("clen", 0, 3))
 	n := vfMinStream
